@@ -55,7 +55,8 @@ func (p *FunctionBuilder) buildManipulator(
 			return nil, logger.Errorf("%v: manipulator function %v additional args count mismatch", p.fset.Position(m.Pos), ret.FuncName())
 		}
 		for i, arg := range m.AdditionalArgs {
-			if !types.AssignableTo(arg, additionalArgs[i].Type()) {
+			// The method's argument is passed to the hook's parameter, not the other way round.
+			if !types.AssignableTo(additionalArgs[i].Type(), arg) {
 				return nil, logger.Errorf("%v: manipulator function %v %s arg type mismatch", p.fset.Position(m.Pos), ret.FuncName(), ordinalNumber(i+3))
 			}
 		}
